@@ -25,6 +25,20 @@ def subset_bits(old: bytes, new: bytes) -> bool:
     return all((o & ~n) == 0 for o, n in zip(old, new))
 
 
+_LEFT_OVER = []
+
+
+def _left_over():
+    if not _LEFT_OVER:
+        import probables as P
+
+        old = P.BloomFilter(40000, 0.001)  # ~70 KiB: longer than almost everything the workloads export
+        for i in range(50):
+            old.add(f"left-over-{i}")
+        _LEFT_OVER.append(bytes(old))
+    return _LEFT_OVER[0]
+
+
 class Scratch:
     """unique file names inside the per-process scratch directory"""
 
@@ -36,10 +50,17 @@ class Scratch:
         self.n = 0
 
     def path(self, stem="f", sub=None):
+        """a unique file name.  Every third name already HOLDS something when it is handed out - a longer, well-formed export of an
+        unrelated larger Bloom filter, as left behind by an earlier run of a program: whoever writes to a path (export, on-disk
+        construction, the harness itself) must replace what is there completely."""
         self.n += 1
         d = self.dir if sub is None else os.path.join(self.dir, sub)
         os.makedirs(d, exist_ok=True)
-        return os.path.join(d, f"{stem}{self.n}.bin")
+        p = os.path.join(d, f"{stem}{self.n}.bin")
+        if self.n % 3 == 2:
+            with open(p, "wb") as fh:
+                fh.write(_left_over())
+        return p
 
     def cleanup(self):
         import shutil
